@@ -580,6 +580,28 @@ func init() {
 		// the route gets these options
 		ro := e.StoresTo(fn, "&complit:am/dispatch.Route.RouteOpts")
 		o.Require(len(ro) == 1, "route-opts", "the new Route's RouteOpts is not set exactly once", nil)
+		// time intervals are a route's own: never inherited, so on every path they are (re)set from the child's lists
+		for _, f := range []string{"MuteTimeIntervals", "ActiveTimeIntervals"} {
+			var own []ssa.Instruction
+			for _, st := range e.StoresTo(fn, opts+"."+f) {
+				v := e.X(fn, st.Val)
+				o.Site(st, "opts."+f+" := "+v)
+				if v == "p0."+f {
+					own = append(own, st)
+					continue
+				}
+				if isNilConst(st.Val) || IsEmptySlice(st.Val) {
+					own = append(own, st)
+					o.Guarded(st, "own-intervals-clear|"+f, "clearing the route's "+f, L("(len(p0."+f+") == 0)", true), L("(p0."+f+" == nil)", true))
+					continue
+				}
+				o.Fail("own-intervals-value|"+f, "a route's "+f+" must be the ones configured on that route, is "+v, st)
+			}
+			if o.Check(len(own) > 0, "own-intervals|"+f, "the route's "+f+" are never taken from its configuration", nil) {
+				r := (&Walk{Fn: fn, Barrier: IsInstr(own...)}).FromEntry()
+				o.Check(!r.Has(ro[0]), "own-intervals-forced|"+f, "a route can keep the "+f+" copied from its parent: time intervals are not inherited, an alert routed to a nested route would be muted (or only active) by the enclosing route's intervals", ro[0])
+			}
+		}
 		o.Check(e.X(fn, ro[0].Val) == "var:opts", "route-opts-value", "the new Route's options are "+e.X(fn, ro[0].Val)+", expected the computed opts", ro[0])
 		o.Site(ro[0], "Route.RouteOpts := opts")
 		// no store to opts fields after it was copied into the route
@@ -810,6 +832,21 @@ func init() {
 				}
 			}
 			o.Check(ok, "tree-missing|"+n, n+" no longer builds its routing tree with NewRoute", nil)
+		}
+		// every configuration handed to the API replaces its tree: the tree the API matches with is the one of the
+		// configuration in force (a tree kept across a reload answers with receivers of the previous configuration)
+		{
+			v2 := o.Fn("(*am/api/v2.API).Update")
+			var sts []ssa.Instruction
+			for _, st := range e.StoresToField(v2, "am/api/v2.API", "route") {
+				sts = append(sts, st)
+				v := e.X(v2, st.Val)
+				o.Site(st, "API.route := "+v)
+				o.Check(strings.HasPrefix(v, "am/dispatch.NewRoute(p0.Route"), "api-tree-value", "the API's routing tree must be built from the configuration given to Update, is "+v, st)
+			}
+			if o.Check(len(sts) >= 1, "api-tree-store", "API.Update no longer installs a routing tree", fnFirst(v2)) {
+				o.Check(len((&Walk{Fn: v2, Barrier: IsInstr(sts...)}).FromEntry().Returns()) == 0, "api-tree-forced", "API.Update can return without rebuilding its routing tree from the new configuration: after a reload the API would match alerts against the previous tree and disagree with the dispatcher", sts[0])
+			}
 		}
 		// NewRoute delegates to newRoute(cr, parent, counter)
 		c := o.One(e.Calls(nr, "am/dispatch.newRoute"), "newroute-delegate", "NewRoute must delegate to newRoute", nr)
